@@ -5,7 +5,7 @@ from . import c08
 
 MANIFEST = dict(
    technique="Lean 4 proof over the store model (conversion = OnAttach annotations on a private scratch copy of the Bag, then applyBag over an arbitrary visiting order; the converter's reads of definition-held member lists through accessors = allocation-only accesses to value-graph cells) + translator (go/ast provenance analysis of jsonschema/to.go: accessor calls, write sites with the origin of the written memory, map ranges with their sinks; accessors classified alias/copy behaviourally) with theorems over the whole regenerated tables + history correspondence: real derivations, ToJSONSchema calls with every option setting and Parse calls, each document compared with the one an isolated twin family gives",
-   text="For the code after pending/C12-convert-scratch-bag.diff and pending/C08-clone-bag.diff: c12_pure (conversion leaves the store untouched), c12_deterministic / c12_twice (the annotated bag is a function of the schema's observation), c12_order_invariant / c12_doc_deterministic (the keywords are the same for every permutation of the annotated bag, i.e. for every Go map iteration order), c12_hist (along every interleaving of chaining calls, conversions and parses every live schema keeps its observation and converts to the same result). Registry: the Describe/Meta checks' OnAttach (run by the converter against the live schema) is modelled in full (convertReg): c12_reg_frame (no other schema's entry is written), c12_annotate_idem / c12_reg_twice / c12_reg_after_others (after the first conversion the registry is a fixed point, so every later conversion reads the same entry), c12_reg_partial (with the entry absorbed the conversion leaves the registry alone); the full statement c12_reg_full is refuted by conv_registers_meta_check (open known finding conversion-registers-meta-check). Definition-held data (literal member lists behind the Def pointer a family shares, handed out by ZodLiteral.Values() by reference): convLiteral_ext / c12_def_pure (accessor, boxing and flattening only allocate: every allocated value graph is observed as before), members_eq_spec / c12_def_after_others / c12_def_twice / c12_def_acc_irrelevant (the document's members are a function of the definition, the same after any conversions of relatives, whether the accessor aliases or copies); excluded shape with witnesses inplace_dedup_changes_definition / inplace_dedup_changes_next_document. Over the tables regenerated from jsonschema/to.go: c12_writes_private (every write site writes memory the conversion made itself), c12_aliasing_accessors_read_only, c12_accessors_classified, c12_scratch_bag_private, c12_ranges_partial (every loop over a map feeds an order-insensitive sink except applyBag's colliding keys and ToJSONSchema(registry): applyBag_field_collisions, registry_range_order_sensitive, c12_ranges_full_false), c12_shape_range_sorted / c12_enum_sort_total / sortedKeys_order_invariant (the loops repaired by 3e22e56; legacy_shape_range_sensitive / legacy_enum_sort_partial for the tree before). Witnesses for the pinned code: today_convert_pollutes_parent (converting String().Min(5) makes String() emit minLength 5) and today_applyBag_order_dependent (File().Size(3).Min(1) converts to minLength 3 or 1 depending on map order).",
+   text="For the code after pending/C12-convert-scratch-bag.diff and pending/C08-clone-bag.diff: c12_pure (conversion leaves the store untouched), c12_deterministic / c12_twice (the annotated bag is a function of the schema's observation), c12_order_invariant / c12_doc_deterministic (the keywords are the same for every permutation of the annotated bag, i.e. for every Go map iteration order), c12_hist (along every interleaving of chaining calls, conversions and parses every live schema keeps its observation and converts to the same result). Registry: the Describe/Meta checks' OnAttach (run by the converter against the live schema) is modelled in full (convertReg): c12_reg_frame (no other schema's entry is written), c12_annotate_idem / c12_reg_twice / c12_reg_after_others (after the first conversion the registry is a fixed point, so every later conversion reads the same entry), c12_reg_partial (with the entry absorbed the conversion leaves the registry alone); the full statement c12_reg_full is refuted by conv_registers_meta_check (open known finding conversion-registers-meta-check). Definition-held data (literal member lists behind the Def pointer a family shares, handed out by ZodLiteral.Values() by reference): convLiteral_ext / c12_def_pure (accessor, boxing and flattening only allocate: every allocated value graph is observed as before), members_eq_spec / c12_def_after_others / c12_def_twice / c12_def_acc_irrelevant (the document's members are a function of the definition, the same after any conversions of relatives, whether the accessor aliases or copies); excluded shape with witnesses inplace_dedup_changes_definition / inplace_dedup_changes_next_document. Over the tables regenerated from jsonschema/to.go: c12_writes_private (every write site writes memory the conversion made itself), c12_aliasing_accessors_read_only, c12_accessors_classified, c12_scratch_bag_private, c12_ranges_partial (every loop over a map feeds an order-insensitive sink except ToJSONSchema(registry), which is outside the property's quantifier: registry_range_order_sensitive, c12_ranges_full_false), c12_shape_range_sorted / c12_enum_sort_total / c12_applyBag_range_sorted / applyBag_field_collisions / sortedKeys_order_invariant (the loops repaired by 3e22e56 and d72e9e7; legacy_shape_range_sensitive / legacy_enum_sort_partial / legacy_applyBag_range_sensitive for the trees before). Witnesses for the pinned code: today_convert_pollutes_parent (converting String().Min(5) makes String() emit minLength 5) and today_applyBag_order_dependent (File().Size(3).Min(1) converts to minLength 3 or 1 depending on map order).",
    note="The document model covers the part of conversion that goes through the Bag (constraint keywords, patterns) plus registry metadata, Values and Shape identity; structural recursion into member schemas, $defs/ref hoisting and option handling are not modelled and are covered only by the correspondence runs (9 option settings); which schemas a conversion visits (whose Describe/Meta callbacks run) is measured on a scout replica whose checks' exported OnAttach slices are wrapped with recorders. The oracle document is obtained from a replayed isolated twin, which assumes constructors and chaining calls are deterministic. Trusted: Lean kernel, axioms propext/Classical.choice/Quot.sound, the Go harness and comparer.",
    design="DESIGN.md §3.4, §5 C12")
 
@@ -27,8 +27,8 @@ THEOREMS = [
     "Gozod.C12Access.c12_accessors_classified", "Gozod.C12Access.c12_scratch_bag_private",
     "Gozod.C12Access.c12_ranges_partial", "Gozod.C12Access.c12_ranges_full_false", "Gozod.C12Access.applyBag_field_collisions",
     "Gozod.C12Access.registry_range_order_sensitive", "Gozod.C12Access.c12_shape_range_sorted",
-    "Gozod.C12Access.c12_enum_sort_total", "Gozod.C12Access.sortedKeys_order_invariant",
-    "Gozod.C12Access.legacy_shape_range_sensitive", "Gozod.C12Access.legacy_enum_sort_partial",
+    "Gozod.C12Access.c12_enum_sort_total", "Gozod.C12Access.c12_applyBag_range_sorted", "Gozod.C12Access.sortedKeys_order_invariant",
+    "Gozod.C12Access.legacy_shape_range_sensitive", "Gozod.C12Access.legacy_enum_sort_partial", "Gozod.C12Access.legacy_applyBag_range_sensitive",
 ]
 
 OPT_NAMES = ["default", "io-input", "unrepresentable-any", "reused-ref", "draft-07", "cycles-throw",
@@ -60,8 +60,10 @@ def key(op, impl, M, S):
         if st[1] == "conv":
             if iv[k].startswith("n"):
                 # fresh isolated twins of this schema do not agree among themselves: the conversion is not a function of
-                # the schema (Go map iteration order shows in the document); class = generator base x option class
-                lazy = lazy or "doc-nondeterministic:%s:%s" % (head[1].split("+")[0], "reused-ref" if st[2] == "3" else "any-option")
+                # the schema (Go map iteration order shows in the document); class = the differing top-level keywords
+                # (legacy keys, fixed by 3e22e56: doc-nondeterministic:<Base>:<option class>); now: the keywords in which
+                # the documents of two fresh twins differ
+                lazy = lazy or "doc-nondeterministic:" + (iv[k].partition(":")[0][1:] or "document")
                 continue
             if iv[k].startswith("1:") and k < len(mv) and mv[k] == iv[k] and st[4] not in ("0", "scout-failed") and " S:" not in impl:
                 lazy = lazy or "conversion-registers-meta-check"
